@@ -48,7 +48,7 @@ MANIFEST = {
             "(through run() with a sleep stub) and DemandSwitch: pool state, all parameters, intervals and "
             "up to 3 (thorough 4) thresholds in arbitrary declaration order are symbolic reals, so values "
             "exactly on a threshold and every ordering/tie are regions of one query; z3 proves direction, "
-            "amount and 'exactly one rule/slave, the right one, with the right arguments' for all values. Enumerated next to it (concrete, reported as such): DemandSwitch's structural rejections and 105 IEEE neighbours of the LinearController thresholds.",
+            "amount and 'exactly one rule/slave, the right one, with the right arguments' for all values; utilisation and allocation may also be nan (a concrete nan selected by a symbolic flag). Enumerated next to it (concrete, reported as such): DemandSwitch's structural rejections and 105 IEEE neighbours of the LinearController thresholds.",
     "note": "floats as exact reals; supply >= 0, interval >= 0; asserts enabled (no python -O); "
             "hash of threshold proxies allowed only inside RangeSelector._compile_lookup, which never looks a key up",
     "design_ref": "DESIGN.md §3 C08",
